@@ -228,6 +228,7 @@ class CallModelsMixin:
         res = None
         callees, argl = [], []
         dn = "__deepcopy__" if deep else "__copy__"
+        self._grp_push()
         for c in x.insts():
             ms = self.prog.lookup(c, dn)
             for mth in ms:
@@ -238,9 +239,10 @@ class CallModelsMixin:
                 res = join(res, r)
             if not ms:
                 res = join(res, self.fresh(node, {"inst:" + c}, "copy", dep=x.dep, mdep=x.mdep))
+        other = x.ty - {t for t in x.ty if t.startswith("inst:")}
+        self._grp_pop(res, other=bool(other) or not x.ty)
         if callees:
             self.rec_call(node, callees, argl, "copy", recv=x, ret=res)
-        other = x.ty - {t for t in x.ty if t.startswith("inst:")}
         if other or not x.ty:
             imm = {"int", "float", "number", "bool", "str", "None"}
             if other and other <= imm:
